@@ -14,7 +14,7 @@ CHECKS = {
          "DESIGN.md §5 C02"),
  "C03": ("supervised exhaustive sweeps: all token strings up to length L over 18 markup tokens, edit neighbourhoods, unsupported-construct catalogue, hostile shape families with growing sizes; each case in a worker process with crash/hang attribution",
          "Every enumerated input is pushed through parse, infoset construction, a full accessor walk, Display and pretty() in supervised worker processes; any panic, abort (stack overflow), hang or super-polynomial time growth is attributed to the exact input.",
-         "Time verdicts are caps with large head-room, reported as caps; sizes beyond the listed family sizes are not covered; the worker has the default 8 MiB main-thread stack.",
+         "Time verdicts are caps on user CPU time of the parsing thread with large head-room, reported only when the growth against the previous family member is super-polynomial and reproduces on two more measurements; sizes beyond the listed family sizes are not covered; the worker has the default 8 MiB main-thread stack.",
          "DESIGN.md §5 C03"),
  "C04": ("bounded-exhaustive: every accepted document of the C01 universe and of the C02 edit neighbourhood is printed, re-parsed and compared (harness observation + crate PartialEq + printer fixpoint)",
          "For every document the implementation accepts in the enumerated spaces, the compact serialization must be accepted completely, denote an equal document by two independent equality notions, and be a fixpoint of the printer.",
@@ -25,9 +25,9 @@ CHECKS = {
          "Every generated expression is evaluated on every document of the small-scope universe by xml_xpath::query (merged-text view) and by the reference evaluator; node-sets must hold exactly the expected nodes, once, in document order; scalars compare exactly.",
          "Trusts mc/src/model/xpath.rs (DESIGN.md Appendix C) and the node mapping in mc/src/checks/xp.rs; expressions and documents beyond the bounds are not covered; caller bindings are varied in C10.",
          "DESIGN.md §5 C05"),
- "C06": ("supervised exhaustive sweeps of xml_xpath::query: all token strings up to length L over 41 tokens, an unsupported / ill-typed / select-nothing catalogue in every syntactic position, the well-typed C05 families, 32 hostile shape families with doubling sizes; crash / hang attributed to the exact expression by worker processes",
-         "Every enumerated expression string is evaluated on four documents in supervised workers; the only acceptable outcomes are a value or an error (and error-or-empty for variable references and id()); time blow-ups are judged by a soft cap with a 16x growth test.",
-         "Time verdicts are caps; strings longer than L over other tokens are not covered; the worker has the default 8 MiB main-thread stack.",
+ "C06": ("supervised exhaustive sweeps of xml_xpath::query: all token strings up to length L over 41 tokens, an unsupported / ill-typed / select-nothing catalogue in every syntactic position, the well-typed C05 families, 45 hostile shape families (doubling sizes; +2 steps for shapes whose node lists or predicate evaluations multiply per repetition) with growing sizes; crash / hang attributed to the exact expression by worker processes",
+         "Every enumerated expression string is evaluated on five documents (attributes, comments / PIs, namespaces, xml:lang, empty CDATA sections) in supervised workers, with every kind of node as context node of every kind of expression; the only acceptable outcomes are a value or an error (and error-or-empty for variable references and id()); time blow-ups are judged by a soft cap with a 16x growth test.",
+         "Time verdicts are caps on user CPU time of the evaluating thread, reported only when the growth against the previous family member is super-polynomial and reproduces on two more measurements; strings longer than L over other tokens are not covered; the worker has the default 8 MiB main-thread stack.",
          "DESIGN.md §5 C06"),
  "C07": ("bounded-exhaustive node-set invariants on the implementation's own results: every path of a pool, every ordered pair (union algebra, counts, positional filters) and every triple of a sub-pool (associativity) on every document",
          "Each node-set the implementation returns is checked for duplicates and document order; A|B against the set union of A and B, commutativity, idempotence, count bound, positional filters on parenthesised unions, associativity.",
@@ -57,8 +57,8 @@ CHECKS = {
          "For every (reachable state, call) the implementation's outcome must be the DOM Level 1 effect computed by the reference tree or one of the exception classes DOM Level 1 allows there; a failed call must leave tree, order-key ranks and serialization unchanged; a panic is a violation.",
          "Trusts mc/src/model/dom.rs (Appendix B of DESIGN.md) incl. its leniencies where DOM Level 1 is silent; errors are mapped to DOM classes leniently.",
          "DESIGN.md §5 C13"),
- "C14": ("explicit-state BFS over edit histories; after every state-changing transition (1) order keys strictly increase along the harness's own pre-order walk and (2) 26 node-set queries select the same positions on the edited document as on a fresh parse of its serialization (differential, no expected values)",
-         "Order-key monotonicity and query agreement with the re-parsed serialization are evaluated in every reached state of the bounded search and attributed to the transition that breaks them.",
+ "C14": ("explicit-state BFS over edit histories; after every state-changing transition (1) order keys strictly increase along the harness's own pre-order walk and (2) 30 node-set queries select the same positions on the edited document as on a fresh parse of its serialization (differential, no expected values) and (3) the transition is repeated on a copy that was queried before the edit with one kept evaluation context: 9 queries must then select what they select on the copy never queried before",
+         "Order-key monotonicity, query agreement with the re-parsed serialization and independence from queries evaluated before the edit (also when namespace declarations are set / removed above prefixed elements) are evaluated in every reached state of the bounded search and attributed to the transition that breaks them.",
          "Positions are compared on a walk that merges adjacent Text nodes and drops empty ones (what a re-parse produces); positional queries are compared only in states without adjacent/empty Text nodes; states whose serialization does not re-parse are C15's concern.",
          "DESIGN.md §5 C14"),
 
@@ -70,17 +70,17 @@ CHECKS = {
          "Every character-data operation with every offset, count and argument string of the alphabet is applied to text, attribute-text, comment and CDATA nodes holding ASCII, multi-byte, astral and combining characters in every reachable state up to the depth bound; result, successor data, exception class, atomic failure and absence of panics are compared with the reference.",
          "Trusts the DOM Level 1 reading in mc/src/model/dom.rs (offset > length: index-size; count past the end: clipped); argument strings hold no markup characters.",
          "DESIGN.md §5 C16"),
- "C19": ("bounded-exhaustive query histories: all sequences up to length n over a pool of 48 queries (incl. ones failing inside predicates, filters and arguments) against one document object and one shared context, each answer compared with the fresh-parse fresh-context answer, document state compared before/after; every document parsed twice",
+ "C19": ("bounded-exhaustive query histories: all sequences up to length n over a pool of 59 queries (incl. ones failing inside predicates, filters and arguments) against one document object and one shared context, each answer compared with the fresh-parse fresh-context answer, document state compared before/after; every document parsed twice",
          "Every query sequence up to the bound is issued on a shared context and document; each answer must equal the answer the query gets alone, and the document's serialization, ids and order keys must not change; two parses of one text must be equal in every observation.",
-         "The pool of queries and the four documents bound the histories; equality of answers is by the harness's value dump with nodes mapped to the reference tree.",
+         "The pool of queries and the five documents bound the histories; equality of answers is by the harness's value dump with nodes mapped to the reference tree.",
          "DESIGN.md §5 C19"),
  # id: (technique, level text, level note, design_ref)
  "C17": ("bounded-exhaustive product of documents x selecting paths x replacement values x flags run through the REAL xe / xq binaries as processes; reference parser + reference XPath + reference edit compute the expected document / lines; stdout parsed back with the reference parser",
          "For every combination within the deviation bound the compact output of xe must denote exactly the document in which the children of the selected nodes are replaced, xq must print one serialization per selected node in document order or the scalar, and unusable input must end with a message and a non-zero status without a crash.",
          "Trusts wf.rs (reference parser), the reference XPath evaluator and the edit model in mc/src/checks/c17.rs; pretty-printed output is checked for status and crashes only.",
          "DESIGN.md §5 C17"),
- "C18": ("total enumeration of all 1,114,112 scalar values + bounded-exhaustive name strings (len<=3/4 over 30 class representatives) in 8 syntactic positions, against transcribed tables",
-         "Every Unicode scalar value is classified by the five public predicates and compared with tables transcribed from the Recommendation (complete, no bound); every short string over class representatives and range boundaries is offered as a name in every syntactic position and accept/reject compared with reference Name/NCName/QName matchers.",
+ "C18": ("total enumeration of all 1,114,112 scalar values (5 predicates) + every code point (quick: 82k class representatives and boundaries; thorough: all) in 16 parser slots and 2 XPath slots whose character class the parsers decide themselves + bounded-exhaustive name strings (len<=3/4 over 30 class representatives) in 8 syntactic positions, against transcribed tables",
+         "Every Unicode scalar value is classified by the five public predicates and compared with tables transcribed from the Recommendation (complete, no bound); placed in VersionNum, EncName, CharRef digits, S, PubidLiteral, SystemLiteral, EntityValue, CharData, AttValue, Comment, PI data and CDATA the document must be accepted iff the production's class holds; every short string over class representatives and range boundaries is offered as a name in every syntactic position and accept/reject compared with reference Name/NCName/QName matchers.",
          "Trusts the transcription of productions [2],[4],[4a],[13],[81] in mc/src/model/chars.rs; names longer than the bound and characters outside the 30-symbol alphabet are covered only through the per-code-point stage.",
          "DESIGN.md §5 C18"),
 }
